@@ -294,15 +294,20 @@ func normCalls(cs []Call) []MTransfer {
 		if c.Err != "" {
 			continue
 		}
-		coins, err := sdk.ParseCoinsNormalized(c.Coins)
-		if err != nil {
-			continue
-		}
-		for _, co := range coins {
-			if co.Amount.IsZero() {
+		// parsed by hand: sdk.ParseCoinsNormalized goes through LegacyDec and fails above 2^255
+		for _, part := range strings.Split(c.Coins, ",") {
+			i := 0
+			for i < len(part) && part[i] >= '0' && part[i] <= '9' {
+				i++
+			}
+			if i == 0 || i == len(part) {
 				continue
 			}
-			out = append(out, MTransfer{From: c.From, To: c.To, Denom: co.Denom, Amt: co.Amount.BigInt()})
+			amt, ok := new(big.Int).SetString(part[:i], 10)
+			if !ok || amt.Sign() == 0 {
+				continue
+			}
+			out = append(out, MTransfer{From: c.From, To: c.To, Denom: part[i:], Amt: amt})
 		}
 	}
 	return out
